@@ -19,7 +19,7 @@ from __future__ import annotations
 import ast
 from typing import List, Optional, Set, Tuple
 
-from .astutil import compare_parts, conjuncts, const_eval, disjuncts, dotted, is_const, NotConst, src, walk_no_nested
+from .astutil import compare_parts, conjuncts, const_eval, disjuncts, dotted, is_const, nnf, NotConst, src, walk_no_nested
 from .q import FuncView
 
 READS = ("read", "peek", "readline", "recv")
@@ -137,13 +137,41 @@ def analyse_loop(ctx, f, loop: ast.While) -> Tuple[bool, str, dict]:
                 else:
                     facts.append(f"exhaustion test `{src(st.test)[:50]}` does NOT leave the loop")
             # search-advance: p = d.find(x, p + 1) ... if p == -1 [or ...]: break
-            for dj in disjuncts(st.test):
+            for dj in disjuncts(nnf(st.test)):
                 for l, op, r in compare_parts(dj):
                     if isinstance(op, ast.Eq) and isinstance(l, ast.Name) and _is_minus_one(r) and _find_advance(loop, l.id):
                         t = cfg.edge_node(st, "true")
                         if not reaches(t, H):
                             G.append(cfg.edge_node(st, "false"))
                             facts.append(f"search restarts strictly after the last match ({l.id} = ....find(_, {l.id} + 1))")
+    # search loop driven by its header: `while p != -1 and ...:` with every rebinding of p inside the loop of the form
+    # p = <seq>.find(x, p + 1) - each cycle restarts strictly after the last match
+    for cj in conjuncts(nnf(loop.test)):
+        for l, op, r in compare_parts(cj):
+            if isinstance(op, ast.NotEq) and isinstance(l, ast.Name) and _is_minus_one(r) and _find_advance(loop, l.id):
+                for n, st in cfg.stmt.items():
+                    if id(st) in inner_nodes and isinstance(st, ast.Assign) and dotted(st.targets[0]) == l.id:
+                        G.append(n)
+                facts.append(f"header ends the search when {l.id} == -1; every cycle restarts strictly after the last match")
+    # iterator-driven loop: `while it.has_more():` whose every cycle takes `next(it)` - as finite as the `for` loop over
+    # the same iterator would be
+    recv = None
+    for cj in conjuncts(nnf(loop.test)):
+        c0 = cj.operand if isinstance(cj, ast.UnaryOp) else cj
+        if isinstance(c0, ast.Call) and isinstance(c0.func, ast.Attribute) and isinstance(c0.func.value, ast.Name):
+            recv = c0.func.value.id
+    if recv is not None:
+        took = 0
+        for n, st in cfg.stmt.items():
+            if id(st) not in inner_nodes or st is loop or isinstance(st, (ast.If, ast.While, ast.For, ast.Try, ast.With)):
+                continue
+            for c in walk_no_nested(st):
+                if isinstance(c, ast.Call) and ((dotted(c.func) == "next" and c.args and dotted(c.args[0]) == recv)
+                                                or (isinstance(c.func, ast.Attribute) and dotted(c.func.value) == recv and c.func.attr in ("next", "__next__"))):
+                    G.append(n)
+                    took += 1
+        if took:
+            facts.append(f"iterator-driven: header asks {recv}, every cycle must take next({recv})")
     if ee == "false":
         # `while data:` - the loop ends when the (re)bound value is empty; progress must come from the body (G)
         facts.append(f"header `{src(loop.test)}` ends the loop on an empty value")
